@@ -97,7 +97,7 @@ func gen(r *hx.Rng, n int, tier string) []string {
 	if tier == "thorough" {
 		directN = 4096
 	}
-	var lines []string
+	lines := directed(r)
 	id := func() string {
 		if r.Chance(20) {
 			return hx.PickS(r, []string{"0", "1", "4294967295", "2147483648", "16777216"})
@@ -480,7 +480,7 @@ func check(in, obs string) string {
 				return fmt.Sprintf("NewHandle %s: key id and material have %d varying bytes per key but only %d fresh bytes were drawn from crypto/rand for %d keys", f[2], vb, drawn, k)
 			}
 		case "SIGN", "LOOSE":
-			if strings.Contains(parts[1], "distinct=no") {
+			if strings.Contains(parts[1], "distinct=no") && !(f[1] == "SIGN" && windowsRepeat(parts[0], hx.UH(f[len(f)-1]))) {
 				return f[2] + ": two calls with fresh randomness gave the same output"
 			}
 		}
@@ -516,4 +516,26 @@ func class(in, obs string) string {
 		return fmt.Sprintf("MGR:%s:n%d:rej%d", strings.Split(adds[0], "/")[0], len(adds), rej)
 	}
 	return ""
+}
+
+// windowsRepeat: do two of the consecutive tape windows of the logged read
+// sizes carry the same bytes?  (A hedged signature is a function of the key,
+// the message and the randomizer: with a constant tape the signatures of one
+// message repeat, which is what the model predicts.)
+func windowsRepeat(sizes string, tape []byte) bool {
+	seen := map[string]bool{}
+	off := 0
+	for _, sz := range strings.Split(strings.TrimPrefix(sizes, "r="), ",") {
+		n := atoi(sz)
+		if off+n > len(tape) {
+			return false
+		}
+		w := string(tape[off : off+n])
+		if seen[w] {
+			return true
+		}
+		seen[w] = true
+		off += n
+	}
+	return false
 }
